@@ -43,7 +43,10 @@ class C01(Prop):
                  '1 var v v 2 ! v v', 'begin break repeat', '0 begin 1 + dup 3 > if break then repeat', '3 0 do 9 break 8 loop',
                  'begin begin break repeat break repeat 4', '1 case 1 of 2 case 2 of 3 endof endcase endof endcase',
                  '1 0 do 7 loop 8', ': f begin 1 break repeat ; f f', ': f local x x 1 + local x x ; 5 f',
-                 ': g local a local b a b + local a a b ; 1 2 g', ': h local x 3 0 do x I + local x loop x ; 10 h']
+                 ': g local a local b a b + local a a b ; 1 2 g', ': h local x 3 0 do x I + local x loop x ; 10 h',
+                 # a redefined global: words compiled before keep the old variable
+                 '1 var x : getx x ; 2 var x getx x', '0 var n : bump n 1 + ! n ; 10 var n 3 0 do bump loop n', '1 var v 2 var v v 3 ! v v',
+                 '5 var a : sa ! a ; 6 var a 7 sa a', ': k 1 ; 2 var k k', '1 var w : w 9 ; w']
         for f in fixed:
             cs.append('c1 6000 %s' % hexsrc(f))
         # exhaustive small scope over a reduced alphabet
